@@ -1014,4 +1014,257 @@ Section IntegratorProofs.
 
   End Repaired.
 
+  (* ================================================================== *)
+  (** * Covers are contiguous partitions; the tree keeps its shape *)
+
+  Section Partition.
+    Variable lt : X -> X -> Prop.
+    Hypothesis lt_trans : forall x y z, lt x y -> lt y z -> lt x z.
+
+    Inductive Cover s : nat -> list nat -> Prop :=
+    | CoverSelf i : Cover s i [i]
+    | CoverKids i l r sl sr :
+        children (getF s i) = [l; r] -> Cover s l sl -> Cover s r sr -> Cover s i (sl ++ sr).
+
+    (* [l] is a chain of intervals from [lo] to [hi]: each starts where the
+       previous one ends, none is empty or reversed *)
+    Fixpoint chain (lo : X) (l : list (X * X)) (hi : X) : Prop :=
+      match l with
+      | [] => lo = hi
+      | (x, y) :: l' => x = lo /\ lt x y /\ chain y l' hi
+      end.
+
+    Lemma chain_app m hi l2 l1 : forall lo, chain lo l1 m -> chain m l2 hi -> chain lo (l1 ++ l2) hi.
+    Proof.
+      induction l1 as [|[x y] l1 IH]; intros lo H1 H2; cbn [chain app] in *.
+      - subst. exact H2.
+      - destruct H1 as (-> & Hxy & H1). repeat split; auto.
+    Qed.
+
+    (* consequently the left end points increase strictly: sorted by [a], no overlap *)
+    Lemma chain_lower lo l hi x y : chain lo l hi -> In (x, y) l -> lo = x \/ lt lo x.
+    Proof.
+      revert lo. induction l as [|[x0 y0] l IH]; intros lo H Hin; cbn [chain In] in *; [contradiction|].
+      destruct H as (-> & Hxy & H). destruct Hin as [E|Hin]; [inversion E; auto|].
+      right. destruct (IH _ H Hin) as [<-|Hlt]; eauto.
+    Qed.
+
+    Lemma chain_sorted lo l hi : chain lo l hi -> Sorted.StronglySorted lt (map fst l).
+    Proof.
+      revert lo. induction l as [|[x y] l IH]; intros lo H; cbn [map fst chain] in *; constructor.
+      - destruct H as (_ & _ & H). eapply IH; eauto.
+      - destruct H as (-> & Hxy & H). apply Forall_forall. intros z Hz.
+        apply in_map_iff in Hz as [[x1 y1] [<- Hin]]. cbn [fst].
+        destruct (@chain_lower _ _ _ _ _ H Hin) as [<-|Hlt]; eauto.
+    Qed.
+
+    Definition ab s k : X * X := (a (getF s k), b (getF s k)).
+
+    (* shape of the tree *)
+    Definition TW s (lo hi : X) : Prop :=
+      1 <= length (ivs s) /\ a (getF s 0) = lo /\ b (getF s 0) = hi /\
+      forall i l r, i < length (ivs s) -> children (getF s i) = [l; r] ->
+        l < length (ivs s) /\ r < length (ivs s) /\
+        a (getF s l) = a (getF s i) /\ b (getF s l) = a (getF s r) /\ b (getF s r) = b (getF s i).
+
+    (* every interval ever created is non-degenerate (decidable on a run; for
+       doubles it is evaluated on every correspondence case) *)
+    Definition strict s : Prop := forall k, k < length (ivs s) -> lt (a (getF s k)) (b (getF s k)).
+
+    Theorem cover_is_partition s lo hi i L :
+      TW s lo hi -> strict s -> Cover s i L -> i < length (ivs s) ->
+      L <> [] /\ chain (a (getF s i)) (map (ab s) L) (b (getF s i)).
+    Proof.
+      intros (_ & _ & _ & HT) Hst HC. induction HC as [i|i l r sl sr Hch Hl IHl Hr IHr]; intros Hi.
+      - split; [discriminate|]. cbn. auto.
+      - destruct (HT i l r Hi Hch) as (Hl' & Hr' & E1 & E2 & E3).
+        destruct (IHl Hl') as [Nl Cl]. destruct (IHr Hr') as [Nr Cr].
+        split; [destruct sl; [contradiction|discriminate]|].
+        rewrite map_app, <- E1, <- E3. apply (@chain_app (b (getF s l))); [exact Cl|].
+        rewrite E2. exact Cr.
+    Qed.
+
+    (* soundness of the executable certificate *)
+    Lemma cov_sound s Sl : forall fuel i L, cov dflt fuel s Sl i = Some L -> Cover s i L /\ incl L Sl.
+    Proof.
+      induction fuel as [|fuel IH]; intros i L H; cbn [cov] in H; [discriminate|].
+      destruct (nat_mem i Sl) eqn:Em.
+      - inversion H; subst. split; [constructor|]. intros k [<-|[]]. apply nat_mem_In. exact Em.
+      - destruct (children (getF s i)) as [|l [|r [|? ?]]] eqn:Ech; try discriminate.
+        destruct (cov dflt fuel s Sl l) as [x1|] eqn:E1; [|discriminate].
+        destruct (cov dflt fuel s Sl r) as [y1|] eqn:E2; [|discriminate].
+        inversion H; subst. destruct (IH _ _ E1) as [C1 I1]. destruct (IH _ _ E2) as [C2 I2].
+        split; [econstructor; eauto|]. apply incl_app; auto.
+    Qed.
+
+    (* frames that keep a, b, children *)
+    Definition FS s s' : Prop :=
+      length (ivs s') = length (ivs s) /\
+      forall j, a (getF s' j) = a (getF s j) /\ b (getF s' j) = b (getF s j) /\ children (getF s' j) = children (getF s j).
+
+    Lemma FC_FS s s' : FC s s' -> FS s s'.
+    Proof. intros [H1 H2]. split; auto. intros j. destruct (H2 j) as (A1 & A2 & _ & _ & _ & A3). auto. Qed.
+
+    Lemma TW_FS s s' lo hi : FS s s' -> TW s lo hi -> TW s' lo hi.
+    Proof.
+      intros [Hl HF] (T1 & T2 & T3 & T5). unfold TW. rewrite Hl.
+      destruct (HF 0) as (A0 & B0 & _). rewrite A0, B0.
+      refine (conj T1 (conj T2 (conj T3 _))).
+      intros i l r Hi Hch. destruct (HF i) as (Ai & Bi & Ci). rewrite Ci in Hch.
+      destruct (HF l) as (Al & Bl & _). destruct (HF r) as (Ar & Br & _).
+      rewrite Ai, Bi, Al, Bl, Ar, Br. apply T5; auto.
+    Qed.
+
+    Lemma FS_same_ivs s s' : ivs s' = ivs s -> FS s s'.
+    Proof. intros E. apply FC_FS, FC_same_ivs, E. Qed.
+
+    Lemma TW_bind (r : st * err) f lo hi :
+      TW (fst r) lo hi -> (forall s1, TW s1 lo hi -> TW (fst (f s1)) lo hi) -> TW (fst (bind r f)) lo hi.
+    Proof. intros H Hf. destruct r as [s1 e]; destruct e; cbn [bind fst] in *; auto. Qed.
+
+    Lemma TW_split s i lo hi : TW s lo hi -> TW (fst (splitF s i)) lo hi.
+    Proof.
+      intros (T1 & T2 & T3 & T5). unfold split. cbn [fst].
+      set (s1 := upd s i _).
+      assert (Hlen : length (ivs s1) = length (ivs s)) by apply length_upd.
+      set (l := mkI _ _ 0 _ _ _ _ _ _ _). set (r := mkI _ _ 0 _ _ _ _ _ _ _).
+      set (s' := set_ivs s1 _).
+      assert (Hlen' : length (ivs s') = S (S (length (ivs s)))).
+      { unfold s'. cbn [ivs set_ivs]. rewrite app_length, Hlen. cbn. lia. }
+      assert (Hold : forall j, j < length (ivs s) -> getF s' j = getF s1 j).
+      { intros j Hj. apply get_app_old. lia. }
+      assert (Hs1 : forall j, a (getF s1 j) = a (getF s j) /\ b (getF s1 j) = b (getF s j) /\
+                              (j <> i -> children (getF s1 j) = children (getF s j))).
+      { intros j. unfold s1. rewrite get_upd. destruct (Nat.eqb_spec j i) as [->|Hne]; cbn [andb].
+        - destruct (_ <? _); cbn [a b iv_set_children]; repeat split; intros; congruence.
+        - repeat split. }
+      assert (Hnl : getF s' (length (ivs s)) = l).
+      { unfold s', get. cbn [ivs set_ivs]. rewrite app_nth2 by lia. rewrite Hlen, Nat.sub_diag. reflexivity. }
+      assert (Hnr : getF s' (S (length (ivs s))) = r).
+      { unfold s', get. cbn [ivs set_ivs]. rewrite app_nth2 by lia. rewrite Hlen.
+        replace (S (length (ivs s)) - length (ivs s)) with 1 by lia. reflexivity. }
+      unfold TW. rewrite Hlen'.
+      refine (conj _ (conj _ (conj _ _))); try lia.
+      - rewrite Hold by lia. destruct (Hs1 0) as (-> & _). exact T2.
+      - rewrite Hold by lia. destruct (Hs1 0) as (_ & -> & _). exact T3.
+      - intros j l0 r0 Hj Hch.
+        destruct (Nat.lt_ge_cases j (length (ivs s))) as [Hjo|Hjn].
+        + (* an old interval *)
+          rewrite Hold in Hch by exact Hjo. rewrite (Hold j Hjo).
+          destruct (Nat.eq_dec j i) as [->|Hne].
+          * (* the interval being split *)
+            unfold s1 in Hch. rewrite get_upd, Nat.eqb_refl in Hch. cbn [andb] in Hch.
+            apply Nat.ltb_lt in Hjo as Hjo'. rewrite Hjo' in Hch. cbn [children iv_set_children] in Hch.
+            inversion Hch; subst l0 r0. rewrite Hnl, Hnr.
+            destruct (Hs1 i) as (Ea & Eb & _). rewrite Ea, Eb.
+            refine (conj _ (conj _ (conj _ (conj _ _)))); try lia; reflexivity.
+          * destruct (Hs1 j) as (Ea & Eb & Ec). rewrite (Ec Hne) in Hch. rewrite Ea, Eb.
+            destruct (T5 j l0 r0 Hjo Hch) as (L1 & L2 & L3 & L4 & L5).
+            rewrite (Hold l0 L1), (Hold r0 L2).
+            destruct (Hs1 l0) as (-> & -> & _). destruct (Hs1 r0) as (-> & -> & _).
+            refine (conj _ (conj _ (conj L3 (conj L4 L5)))); lia.
+        + (* a new interval has no children *)
+          exfalso. destruct (Nat.eq_dec j (length (ivs s))) as [->|Hne].
+          * rewrite Hnl in Hch. discriminate.
+          * replace j with (S (length (ivs s))) in Hch by lia. rewrite Hnr in Hch. discriminate.
+    Qed.
+
+    Lemma TW_FC s s' lo hi : FC s s' -> TW s lo hi -> TW s' lo hi.
+    Proof. intros H. apply TW_FS, FC_FS, H. Qed.
+
+    Lemma TW_add_ival s i lo hi : TW s lo hi -> TW (fst (aiF s i)) lo hi.
+    Proof. apply TW_FC, FC_add_ival. Qed.
+
+    Lemma TW_fill_stack s c lo hi : TW s lo hi -> TW (fst (fsF s c)) lo hi.
+    Proof.
+      intros HT. unfold fill_stack.
+      set (s0 := set_orc s _).
+      assert (HT0 : TW s0 lo hi) by (eapply TW_FS; [apply FS_same_ivs; reflexivity|exact HT]).
+      destruct (match prio s0 with [] => _ | _ => _ end) as [[[i force] s1]|] eqn:Esel; [|exact HT0].
+      assert (HT1 : TW s1 lo hi).
+      { destruct (prio s0) as [|k rest]; [destruct (nat_mem _ _)|]; inversion Esel; subst s1; exact HT0. }
+      destruct (negb _); [exact HT1|].
+      apply TW_bind; [|intros s4 H4; destruct (is_nil _); exact H4].
+      apply TW_bind; [|intros s4 H4; eapply TW_FC; [apply FC_max_ivals_rule|exact H4]].
+      destruct (c_minsep c); [eapply TW_FC; [apply FC_remove_live|exact HT1]|].
+      destruct (_ || _).
+      - apply TW_bind; [eapply TW_FC; [apply FC_remove_live|exact HT1]|].
+        intros s2 HT2. pose proof (@TW_split s2 i lo hi HT2) as HS.
+        destruct (splitF s2 i) as [s3 kids]. cbn [fst] in HS.
+        apply (foldM_inv (fun s' => TW s' lo hi)); [intros; apply TW_add_ival; auto|exact HS].
+      - apply TW_add_ival. eapply TW_FS; [|exact HT1]. split; [apply length_upd|].
+        intros j. rewrite get_upd. destruct (_ && _); repeat split.
+    Qed.
+
+    Lemma TW_ask_loop lo hi cs : forall s nleft acc,
+      TW s lo hi -> TW (fst (fst (alF s nleft cs acc))) lo hi.
+    Proof.
+      induction cs as [|c cs IH]; intros s nleft acc HT; cbn [ask_loop].
+      - destruct (nleft =? 0); [exact HT|]. destruct (_ && _); exact HT.
+      - destruct (nleft =? 0); [exact HT|]. destruct (_ && _); [exact HT|].
+        pose proof (@TW_fill_stack s c lo hi HT) as H1.
+        destruct (fsF s c) as [s1 e]. cbn [fst] in H1.
+        destruct e; try exact H1. unfold pop_from_stack. apply IH.
+        eapply TW_FS; [apply FS_same_ivs; reflexivity|exact H1].
+    Qed.
+
+    Lemma TW_step s o lo hi : TW s lo hi -> TW (fst (stepF s o)) lo hi.
+    Proof.
+      intros HT. unfold step. destruct (halted s); [exact HT|].
+      destruct o as [n cs|x vs].
+      - unfold ask, pop_from_stack.
+        pose proof (@TW_ask_loop lo hi cs (set_stack s (skipn n (stack s))) (n - length (firstn n (stack s))) (firstn n (stack s))) as H1.
+        destruct (alF _ _ cs _) as [[s1 e] out]. cbn [fst] in H1.
+        assert (H2 : TW s1 lo hi) by (apply H1; eapply TW_FS; [apply FS_same_ivs; reflexivity|exact HT]).
+        destruct e; cbn [fst]; (eapply TW_FS; [apply FS_same_ivs; reflexivity|exact H2]).
+      - pose proof (FC_tell (set_orc s vs) x) as H1.
+        destruct (tellF (set_orc s vs) x) as [s1 e]. cbn [fst] in H1.
+        assert (H2 : TW s1 lo hi).
+        { eapply TW_FC; [exact H1|]. eapply TW_FS; [apply FS_same_ivs; reflexivity|exact HT]. }
+        destruct e; cbn [fst]; try exact HT; try (eapply TW_FS; [apply FS_same_ivs; reflexivity|exact H2]).
+        destruct (is_nil _); cbn [fst]; (eapply TW_FS; [apply FS_same_ivs; reflexivity|exact H2]).
+    Qed.
+
+    Lemma TW_init lo hi maxiv : TW (initF lo hi maxiv) lo hi.
+    Proof.
+      unfold init. apply TW_add_ival.
+      refine (conj _ (conj _ (conj _ _))); cbn; auto.
+      intros i l r Hi. assert (i = 0) by lia. subst. cbn. discriminate.
+    Qed.
+
+    Lemma TW_run lo hi h : forall s, TW s lo hi -> TW (runF s h) lo hi.
+    Proof.
+      induction h as [|o h IH]; intros s HT; cbn [run fold_left]; [exact HT|].
+      apply IH. apply TW_step. exact HT.
+    Qed.
+
+    (* C07_partition, the part that is proved: in every reachable state, whenever the
+       (executable) certificate accepts approximating_intervals, that set is the
+       leaf set of a cover of the root, and a cover of the root is a chain of
+       non-empty intervals from the lower to the upper bound *)
+    Theorem partition_certified lo hi maxiv h Sl :
+      let s := runF (initF lo hi maxiv) h in
+      strict s ->
+      approximating_intervals dflt s = Some Sl ->
+      partition_cert dflt s Sl = true ->
+      exists L, Cover s 0 L /\ (forall k, In k Sl <-> In k L) /\ L <> [] /\
+                chain lo (map (ab s) L) hi /\ Sorted.StronglySorted lt (map fst (map (ab s) L)).
+    Proof.
+      intros s Hst Happ Hcert.
+      assert (HT : TW s lo hi) by (apply TW_run, TW_init).
+      unfold partition_cert in Hcert.
+      destruct (cov dflt (length (ivs s)) s Sl 0) as [L|] eqn:Ec; [|discriminate].
+      destruct (@cov_sound _ _ _ _ _ Ec) as [HC Hincl].
+      exists L. split; [exact HC|]. split.
+      - intros k. split; [|apply Hincl]. intros Hk. rewrite forallb_forall in Hcert.
+        apply nat_mem_In. apply Hcert. exact Hk.
+      - destruct (@cover_is_partition s lo hi 0 L HT Hst HC) as [Hne Hch]; [destruct HT; lia|].
+        destruct HT as (T1 & T2 & T3 & T5). rewrite T2, T3 in Hch.
+        repeat split; auto. eapply chain_sorted; eauto.
+    Qed.
+
+  End Partition.
+
 End IntegratorProofs.
+
+Arguments strict {X}. Arguments Cover {X}. Arguments chain {X}. Arguments ab {X}. Arguments TW {X}.
